@@ -179,7 +179,7 @@ static void do_callh (const char *fname, uint64_t a, uint64_t b, uint64_t xb) {
     if (fi == NULL) { printf ("E no-func %s\n", fname); return; }
     nlog = 0; rs[k] = 0;
     int sg;
-    in_call = 1; alarm (10);
+    in_call = 1; alarm (4);
     if ((sg = sigsetjmp (crash_env, 1)) == 0) {
       if (engs[k].kind == E_INTERP) {
         MIR_val_t v[3], r[1];
@@ -206,7 +206,7 @@ static void do_wide (const char *fname, uint64_t seed) {
     if (fi == NULL) { printf ("E no-func %s\n", fname); return; }
     nlog = 0; rs[k] = 0;
     int sg;
-    in_call = 1; alarm (10);
+    in_call = 1; alarm (4);
     if ((sg = sigsetjmp (crash_env, 1)) == 0) {
       if (engs[k].kind == E_INTERP) {
         /* same argument derivation as call_wide */
